@@ -101,13 +101,16 @@ Definition enc_dhcp4 (p : bytes) (opcode : N) (chaddr : option bytes) (ciaddr yi
 Definition str_discover_prl : bytes := [53; 1; 121; 3; 6; 15].
 
 (* client.go:116 SendDiscoverPacket(chAddr, ciAddr, xid, name): DHCP built in place at offset 42.
-   [opts] = {12: name (when non-empty), 55: parameter list, 53: [1]} in emitted order *)
-Definition send_discover (c : cfg) (chaddr : option bytes) (ciaddr : bytes) (xid : option bytes)
+   [opts] = {12: name (when non-empty), 55: parameter list, 53: [1]} in emitted order.
+   Since fix 766f89c: a ciaddr that is not IPv4 is replaced by 0.0.0.0 and a nil xid by a random one
+   (mustXID): [xid] is the effective transaction id. *)
+Definition send_discover (c : cfg) (chaddr : option bytes) (ciaddr : bytes) (xid : bytes)
                          (opts : list opt) (junk : bytes) : res (list bytes) :=
+  let ciaddr := if is4 ciaddr then ciaddr else ipv4zero in
   let b := enc_ether junk 2048 (host_mac c) (router_mac c) in
   let b := enc_ip4 14 b 50 (host_ip4 c) (router_ip4 c) in
   let b := enc_udp 34 b 68 67 in
-  match enc_dhcp4 (skipn 42 b) 1 chaddr ciaddr ipv4zero xid false opts with
+  match enc_dhcp4 (skipn 42 b) 1 chaddr ciaddr ipv4zero (Some xid) false opts with
   | None => Panic
   | Some d =>
       let b := firstn 42 b ++ d ++ skipn (42 + List.length d) b in
@@ -142,34 +145,50 @@ Definition dns_query (id flags : N) (encoded_name : bytes) (qtype qclass : N) : 
   [hi8 id; lo8 id; hi8 flags; lo8 flags; 0; 1; 0; 0; 0; 0; 0; 0] ++ encoded_name
   ++ [hi8 qtype; lo8 qtype; hi8 qclass; lo8 qclass].
 
-Definition mdns_ip4_addr : addr := (eth_bcast, [224; 0; 0; 251]).
-Definition llmnr_ip4_addr : addr := (eth_bcast, [224; 0; 0; 251]).   (* mdns.go:73, sic: .251 *)
-Definition ssdp_ip4_addr : addr := (eth_bcast, [239; 255; 255; 250]).
+(* group addresses with their RFC 1112 MACs (since fixes fcbed9b, df36fdf) *)
+Definition mdns_ip4_addr : addr := ([1; 0; 94; 0; 0; 251], [224; 0; 0; 251]).
+Definition llmnr_ip4_addr : addr := ([1; 0; 94; 0; 0; 252], [224; 0; 0; 252]).
+Definition ssdp_ip4_addr : addr := ([1; 0; 94; 127; 255; 250], [239; 255; 255; 250]).
+
+(* pseudo header of the fix: src, dst, PutUint32(len), 0, 0, 0, 17 *)
+Definition udp6_pseudo (src dst : bytes) (n : N) : bytes :=
+  src ++ dst ++ [u8 (N.shiftr n 24); u8 (N.shiftr n 16); u8 (N.shiftr n 8); u8 n] ++ [0; 0; 0; 17].
 
 Definition zero_buf : bytes := repeat 0 EthMaxSize.   (* sendMDNS uses make([]byte, EthMaxSize) *)
 
-(* mdns.go:118 sendMDNS(buf, srcAddr, dstAddr): IPv4 branch when src is IPv4, else IPv6; same port both ways *)
+(* the IPv6 branch of sendMDNS over a buffer [b0]: EncodeEther; EncodeIP6(hop 255); EncodeUDP;
+   udp.AppendPayload; ip6.SetPayload; since fix 94fb890 the UDP checksum over pseudo header + datagram
+   (Checksum result 0 is sent as 0xffff) *)
+Definition udp6_send (smac dmac sip dip : bytes) (sp dp : N) (p : bytes) (b0 : bytes) : res (list bytes) :=
+  let b := enc_ether b0 34525 smac dmac in
+  let b := enc_ip6 14 b 255 sip dip in
+  let b := enc_udp 54 b sp dp in
+  match udp_append_payload 54 b p with
+  | None => Ok []
+  | Some b =>
+      let n := (8 + List.length p)%nat in
+      let b := ip6_set_payload 14 b n 17 in
+      let psh := udp6_pseudo (sub b 22 16) (sub b 38 16) (N.of_nat n) ++ sub b 54 n in
+      let cs := checksum psh in
+      let b := if cs =? 0 then set_nth 60 255 (set_nth 61 255 b)
+               else set_nth 60 (u8 cs) (set_nth 61 (u8 (N.shiftr cs 8)) b) in
+      Ok [firstn (14 + 40 + n) b]
+  end.
+
+(* mdns.go:118 sendMDNS(buf, srcAddr, dstAddr): IPv4 branch when src is IPv4, else IPv6; same port both ways;
+   the frame is built in a freshly allocated (zero) buffer *)
 Definition send_mdns (c : cfg) (buf : bytes) (src dst : addr) (port : N) : res (list bytes) :=
   if is4 (a_ip src) then
     udp4_send (host_mac c) (a_mac dst) 255 (a_ip src) (a_ip dst) port port buf zero_buf
   else
-    let b := enc_ether zero_buf 34525 (host_mac c) (a_mac dst) in
-    let b := enc_ip6 14 b 255 (a_ip src) (a_ip dst) in
-    let b := enc_udp 54 b port port in
-    match udp_append_payload 54 b buf with
-    | None => Ok []
-    | Some b =>
-        let n := (8 + List.length buf)%nat in
-        let b := ip6_set_payload 14 b n 17 in
-        Ok [firstn (14 + 40 + n) b]
-    end.
+    udp6_send (host_mac c) (a_mac dst) (a_ip src) (a_ip dst) port port buf zero_buf.
 
-(* mdns.go:78 SendMDNSQuery(name): type ALL(255) class ANY(255); :86 SendLLMNRQuery passes TypePTR but
-   sendMDNSQuery ignores its mtype argument: type ALL as well *)
+(* mdns.go:78 SendMDNSQuery(name): type ALL(255) class ANY(255); :86 SendLLMNRQuery: type PTR(12)
+   (sendMDNSQuery uses its mtype argument since fix fcbed9b) *)
 Definition send_mdns_query (c : cfg) (name : bytes) : res (list bytes) :=
   send_mdns c (dns_query 0 0 (dns_name name) 255 255) (host_mac c, host_ip4 c) mdns_ip4_addr 5353.
 Definition send_llmnr_query (c : cfg) (name : bytes) : res (list bytes) :=
-  send_mdns c (dns_query 0 0 (dns_name name) 255 255) (host_mac c, host_ip4 c) llmnr_ip4_addr 5355.
+  send_mdns c (dns_query 0 0 (dns_name name) 12 255) (host_mac c, host_ip4 c) llmnr_ip4_addr 5355.
 
 (* nbns.go:50 encodeNBNSName *)
 Definition nbns_pad (name : bytes) : bytes :=
@@ -178,23 +197,24 @@ Definition nbns_pad (name : bytes) : bytes :=
 Definition nbns_name (name : bytes) : bytes :=
   [32] ++ concat (map (fun ch => [u8 (65 + ch / 16); u8 (65 + N.land ch 15)]) (nbns_pad name)) ++ [0].
 
-(* nbns.go:141 sendNBNS(srcAddr, dstAddr, p): Ethernet source is srcAddr.MAC (sic) *)
-Definition send_nbns (src dst : addr) (p : bytes) (junk : bytes) : res (list bytes) :=
-  udp4_send (a_mac src) (a_mac dst) 255 (a_ip src) (a_ip dst) 137 137 p junk.
+(* nbns.go:141 sendNBNS(srcAddr, dstAddr, p): Ethernet source is the NIC MAC (since fix 0948ecc) *)
+Definition send_nbns (c : cfg) (src dst : addr) (p : bytes) (junk : bytes) : res (list bytes) :=
+  udp4_send (host_mac c) (a_mac dst) 255 (a_ip src) (a_ip dst) 137 137 p junk.
 (* nbns.go:122 SendNBNSQuery / :133 SendNBNSNodeStatus; seq = the package counter after ++ *)
-Definition send_nbns_query (src dst : addr) (seq : N) (name : bytes) (junk : bytes) : res (list bytes) :=
-  send_nbns src dst (dns_query seq 0 (nbns_name name) 32 1) junk.
+Definition send_nbns_query (c : cfg) (src dst : addr) (seq : N) (name : bytes) (junk : bytes) : res (list bytes) :=
+  send_nbns c src dst (dns_query seq 0 (nbns_name name) 32 1) junk.
 Definition nbns_star : bytes := [42] ++ repeat 32 15.
 Definition send_nbns_node_status (c : cfg) (seq : N) (junk : bytes) : res (list bytes) :=
-  send_nbns (host_mac c, host_ip4 c) (eth_bcast, [255;255;255;255]) (dns_query seq 0 (nbns_name nbns_star) 33 1) junk.
+  send_nbns c (host_mac c, host_ip4 c) (eth_bcast, [255;255;255;255]) (dns_query seq 0 (nbns_name nbns_star) 33 1) junk.
 
-(* ssdp.go:185 mSearchString (raw string literal: leading LF, LF line ends, CRLF CRLF appended) *)
+(* ssdp.go:185 mSearchString (since fix f7b029e: request line first, CRLF line ends, empty line last) *)
+Definition crlf : bytes := [13; 10].
 Definition ascii_msearch : bytes :=
-  [10] ++ [77;45;83;69;65;82;67;72;32;42;32;72;84;84;80;47;49;46;49] ++ [10]
-  ++ [72;79;83;84;58;32;50;51;57;46;50;53;53;46;50;53;53;46;50;53;48;58;49;57;48;48] ++ [10]
-  ++ [77;65;78;58;32;34;115;115;100;112;58;100;105;115;99;111;118;101;114;34] ++ [10]
-  ++ [77;88;58;32;49] ++ [10]
-  ++ [83;84;58;32;34;115;115;100;112;58;97;108;108;34] ++ [13;10;13;10].
+  [77;45;83;69;65;82;67;72;32;42;32;72;84;84;80;47;49;46;49] ++ crlf
+  ++ [72;79;83;84;58;32;50;51;57;46;50;53;53;46;50;53;53;46;50;53;48;58;49;57;48;48] ++ crlf
+  ++ [77;65;78;58;32;34;115;115;100;112;58;100;105;115;99;111;118;101;114;34] ++ crlf
+  ++ [77;88;58;32;49] ++ crlf
+  ++ [83;84;58;32;34;115;115;100;112;58;97;108;108;34] ++ crlf ++ crlf.
 (* ssdp.go:199 SendSSDPSearch *)
 Definition send_ssdp_search (c : cfg) (junk : bytes) : res (list bytes) :=
   udp4_send (host_mac c) (a_mac ssdp_ip4_addr) 255 (host_ip4 c) (a_ip ssdp_ip4_addr) 1900 1900 ascii_msearch junk.
